@@ -348,6 +348,11 @@ func (w *world) mkSpend(m *model.Ledger, fat bool) (model.Txn, bool) {
 
 // mkSpendOf spends exactly the given unspent outputs into one output that carries all coins and `hours` hours.
 func (w *world) mkSpendOf(m *model.Ledger, ins []model.Hash, hours uint64) (model.Txn, bool) {
+	return w.mkSpendTo(m, ins, hours, w.destination(w.c.T))
+}
+
+// mkSpendTo is mkSpendOf with a given destination.
+func (w *world) mkSpendTo(m *model.Ledger, ins []model.Hash, hours uint64, dst model.Addr) (model.Txn, bool) {
 	var tx model.Txn
 	var coins uint64
 	for _, id := range ins {
@@ -364,7 +369,7 @@ func (w *world) mkSpendOf(m *model.Ledger, ins []model.Hash, hours uint64) (mode
 	if coins == 0 {
 		return model.Txn{}, false
 	}
-	tx.Out = []model.Out{{Addr: w.destination(w.c.T), Coins: coins, Hours: hours}}
+	tx.Out = []model.Out{{Addr: dst, Coins: coins, Hours: hours}}
 	w.sign(m, &tx)
 	return tx, true
 }
